@@ -17,7 +17,7 @@ class FnSpec:
     """
     def __init__(self, name, params=(), ret=None, pure=False, requires=(), ensures=(),
                  raises=(), modifies=(), effects=(), defaults=None, assumed=True,
-                 reads=(), varargs=False, impl=None, note=''):
+                 reads=(), varargs=False, impl=None, note='', shared_result=False):
         self.name = name
         self.params = list(params)
         self.ret = ret
@@ -33,6 +33,9 @@ class FnSpec:
         self.varargs = varargs
         self.impl = impl
         self.note = note
+        # the returned container is owned by the callee (e.g. a memoised list handed out by reference): mutating it in
+        # place changes what every later caller gets - each in-place mutation of it is a failed frame obligation
+        self.shared_result = shared_result
 
 
 class Family:
